@@ -240,7 +240,37 @@ func genMWCase(t *rapid.T, g mwGenCfg) MWCase {
 			c.Steps = append(c.Steps, vs)
 		}
 	}
-	if withReturn {
+	if !withReturn && (g.mode == "c09" || g.mode == "c10") && rapid.IntRange(0, 3).Draw(t, "protpattern") == 0 {
+		// Targeted region: the protection walk of a vacuum matters and runs under a read fault.
+		// A populated multi-node table; writer 1 stays on the common version P; writer 0 deletes a
+		// row (so its vacuum rewrites part of the tree); writer 1 updates another row (its version
+		// still shares P's other nodes); writer 0 vacuums with the year-2100 cutoff while one
+		// of its LISTs or GETs fails.
+		c.EPN = rapid.SampledFrom([]int{2, 3, 4}).Draw(t, "pepn")
+		if c.NWriters < 2 {
+			c.NWriters = 2
+		}
+		if c.NKeys < 10 {
+			c.NKeys = 10
+		}
+		ks := intKeys(c.NKeys)
+		fill := Stmt{Kind: "ins", Cols: []string{"a"}, T: -10}
+		for i, k := range ks {
+			fill.Keys = append(fill.Keys, k)
+			fill.Vals = append(fill.Vals, []Val{vInt(int64(i % 3))})
+		}
+		ia := rapid.IntRange(0, len(ks)-1).Draw(t, "pdel")
+		ib := (ia + 1 + rapid.IntRange(0, len(ks)-2).Draw(t, "pupd")) % len(ks)
+		pat := []MWStep{
+			{Op: "stmt", W: 0, Stmts: []Stmt{fill}},
+			{Op: "refresh", W: 1},
+			{Op: "stmt", W: 0, Stmts: []Stmt{{Kind: "del", Keys: []Val{ks[ia]}, T: -8}}},
+			{Op: "stmt", W: 1, Stmts: []Stmt{{Kind: "upd", Keys: []Val{ks[ib]}, Cols: []string{"b"}, Vals: [][]Val{{vInt(2)}}, T: -7}}},
+			{Op: "vacuum", W: 0, Cut: -1, VacFault: rapid.SampledFrom([]string{"nth-get", "nth-get", "nth-list", "merged-deletes"}).Draw(t, "pfault"), Mask: rapid.IntRange(1, 12).Draw(t, "pmask")},
+			{Op: "observe"},
+		}
+		c.Steps = append(pat, c.Steps...)
+	} else if withReturn {
 		k := rapid.SampledFrom(intKeys(c.NKeys)).Draw(t, "rkey")
 		col := rapid.SampledFrom(wideCols).Draw(t, "rcol")
 		ins := Stmt{Kind: "ins", Keys: []Val{k}, Cols: []string{col}, Vals: [][]Val{{vInt(1)}}, T: -30}
